@@ -38,7 +38,7 @@ SMALL = [
 
 def plan(tier, seed):
     specs = [{"kind": "exhaustive"}]
-    specs += [{"kind": "random", "n": 1200 if tier == "quick" else 12000} for _ in range(7 if tier == "quick" else 15)]
+    specs += [{"kind": "random", "n": 1200 if tier == "quick" else 60000} for _ in range(7 if tier == "quick" else 15)]
     return specs
 
 
